@@ -77,6 +77,9 @@ type World struct {
 	Crashes int
 	Keys    []*Key // keys currently published by the provider
 	Rolled  bool
+	// Drift: first observation that the real (memory) store holds something that was not written through the store
+	// interface (e.g. a caller mutating an object the store handed out).
+	Drift string
 }
 
 var (
@@ -614,6 +617,44 @@ func (w *World) StoreDump(withTimes bool) string {
 		sb.WriteString("]")
 	}
 	return sb.String()
+}
+
+// CheckDrift compares the real memory store with the ghost of effective writes (token values and login state only;
+// timestamps are not compared). Called at every environment call and after every check.
+func (w *World) CheckDrift(where string) {
+	if w.Drift != "" || w.Mini != nil {
+		return
+	}
+	snap := oidc.VerifMemorySnapshot(w.Raw)
+	if snap == nil {
+		return
+	}
+	for sid, se := range snap {
+		g := w.Store.Ghost[sid]
+		var gt *oidc.TokenResponse
+		var gs *oidc.AuthorizationState
+		if g != nil {
+			gt, gs = g.Tokens, g.State
+		}
+		switch {
+		case (se.Tokens == nil) != (gt == nil):
+			if se.Tokens != nil || g != nil {
+				w.Drift = fmt.Sprintf("tokens: %s: tokens of session present=%v in the store but present=%v by the writes made through the interface", where, se.Tokens != nil, gt != nil)
+			}
+		case se.Tokens != nil && (se.Tokens.IDToken != gt.IDToken || se.Tokens.AccessToken != gt.AccessToken || se.Tokens.RefreshToken != gt.RefreshToken ||
+			!se.Tokens.AccessTokenExpiresAt.Equal(gt.AccessTokenExpiresAt)):
+			w.Drift = fmt.Sprintf("tokens: %s: the stored token response differs from the last one written through SetTokenResponse", where)
+		case (se.State == nil) != (gs == nil):
+			if se.State != nil || g != nil {
+				w.Drift = fmt.Sprintf("state: %s: login state present=%v in the store but present=%v by the writes made through the interface", where, se.State != nil, gs != nil)
+			}
+		case se.State != nil && *se.State != *gs:
+			w.Drift = fmt.Sprintf("state: %s: the stored login state differs from the last one written through SetAuthorizationState", where)
+		}
+		if w.Drift != "" {
+			return
+		}
+	}
 }
 
 // HasTokens reports whether the real store currently holds tokens under sid (white-box, no side effects).
